@@ -82,9 +82,29 @@ NEEDS = {
  "C18-d": ("Factor.kind resolved in place on the shared Formula object", "a Formula object reused across builds (any build mutates it; visible when a column changes kind)"),
  "C19-d": ("_flatten stops at nested tuples", "Structured with a tuple inside a tuple"),
  "C20-d": ("ModelSpec.differentiate re-derives from the original formula per variable", "ModelSpec/ModelSpecs.differentiate with >= 2 variables"),
+ "C01-e": ("Term.degree discounts a literal only when it is the first factor", "a numeric scale written after the variable ('a:2', '(a+b):2') under degree ordering"),
+ "C02-e": ("narwhals dense fast path multiplies single-column factors with DataFrame.prod (skipna)", "narwhals materializer + >= 2 single-column factors in a term + a NaN reaching the product (na_action='ignore' / Arrow float NaN)"),
+ "C03-e": ("reference column dropped only when drop_field is truthy", "categorical whose reference level label is falsy (0, False, '')"),
+ "C04-e": ("_is_stateful_transform only recognises callees that are plain names", "stateful transform reached through attribute access on a context object (ft.center(x)), replayed on other data"),
+ "C05-e": ("ModelSpec.get_model_matrix with option overrides no longer forwards drop_rows", "spec method + an override (output=...) + caller-supplied drop set"),
+ "C06-e": ("null scan skipped for bare-name factors when the data frame holds no null", "pandas materializer + null-free frame + bare name resolving to a context vector with nulls"),
+ "C07-e": ("null rows of a Python-evaluated factor taken from its columns' cached null rows", "a null-creating transform (lag(x), root of a negative) + the same column as a bare factor elsewhere in the joint build"),
+ "C08-e": ("C() converts a narwhals series with pandas.Series() before the dtype-preserving branch", "narwhals input + C(...) + category dtype with unsorted declared order"),
+ "C09-e": ("boolean follow-up column treated as the recorded categorical kind", "spec replay + factor recorded categorical + follow-up column of bool/boolean dtype"),
+ "C10-e": ("term_variables read from the first scoped term only", "rank reduction splitting a term into >= 2 scoped terms (categorical interaction without margins)"),
+ "C11-e": ("dense non-treatment contrasts looked up by argmax of the dummy row", "null / unseen value reaching a sum/Helmert/diff/poly/custom encoder with dense output"),
+ "C12-e": ("EXTEND test hoisted before the extrapolation argument is normalised", "bs(..., extrapolation=SplineExtrapolation.EXTEND) (enum member) + out-of-range values"),
+ "C13-e": ("special arguments taken from the dispatched implementation's signature", "scale/center applied to a one-column scipy sparse matrix, then state reuse"),
+ "C14-e": ("missing-operator message built by a recursive helper", "missing operator next to an operand nested > ~1000 deep (very long chains)"),
+ "C15-e": ("escape branches merged: an escaped backslash re-arms the escape", "even run of backslashes before a closing quote inside a quoted context"),
+ "C16-e": ("mapping specification iterated in sorted key order", "mapping with >= 2 keys not written in lexicographic order"),
+ "C17-e": ("context layer placed after the built-in transforms", "context name that shadows a built-in transform (center, scale, ...)"),
+ "C18-e": ("state dicts of an unfitted spec deep-copied only when non-empty", "one unfitted ModelSpec object used for builds on two data sets"),
+ "C19-e": ("nested get_with_layer_name uses `value is not default` as the found test", "None (or the default object) stored in a nested LayeredMapping layer, read through get_with_layer_name / get_layer_name_for_key"),
+ "C20-e": ("a term whose remaining factors are all literals is replaced by 1", "literal-scaled term whose every variable is consumed by wrt ('2:a' wrt a)"),
 }
 res = {}
-for f in ["seeded/selftest_round_a.json", "seeded/selftest_round_b_before_strengthening.json", "seeded/selftest_round_c_before_strengthening.json", "seeded/selftest_round_d_before_strengthening.json"]:
+for f in ["seeded/selftest_round_a.json", "seeded/selftest_round_b_before_strengthening.json", "seeded/selftest_round_c_before_strengthening.json", "seeded/selftest_round_d_before_strengthening.json", "seeded/selftest_round_e_before_strengthening.json"]:
     if os.path.exists(f):
         for k, v in json.load(open(f))["seeds"].items():
             res.setdefault(k, {})["first"] = v
